@@ -8,6 +8,7 @@ SP = os.path.join(REPO, "sourcecode-parser")
 BUILD = os.path.join(VERIF, "build")
 LEAN = os.path.join(VERIF, "lean")
 REPLAYS = os.path.join(VERIF, "replays")
+HARNESS_DIR = os.path.join(VERIF, "harness") if os.environ.get("CPF_REPO", "/repo") == "/repo" else os.path.join(VERIF, "build", "harness-alt")
 GOENV = dict(os.environ, GOPROXY="off", GOSUMDB="off", GOTOOLCHAIN="local", CGO_ENABLED="1")
 ALLOWED_AXIOMS = {"propext", "Classical.choice", "Quot.sound"}
 
@@ -62,6 +63,15 @@ def build_go():
     with BuildLock():
         t0 = time.time()
         h = os.path.join(VERIF, "harness")
+        if REPO != "/repo":
+            # exploratory runs against a copy of the repository (CPF_REPO=<dir>; never used by the registered
+            # commands): the harness module's `replace` names /repo, so build from a rewritten copy
+            h2 = os.path.join(BUILD, "harness-alt")
+            shutil.rmtree(h2, ignore_errors=True)
+            shutil.copytree(h, h2)
+            gm = open(os.path.join(h2, "go.mod")).read().replace("=> /repo/", "=> " + REPO.rstrip("/") + "/")
+            open(os.path.join(h2, "go.mod"), "w").write(gm)
+            h = h2
         shutil.copy(os.path.join(SP, "go.sum"), os.path.join(h, "go.sum"))
         env = dict(GOENV, GOFLAGS="-mod=mod")
         rc, out = sh(["go", "build", "-tags", "verif", "-o", os.path.join(BUILD, "cpfh"), "."], cwd=h, env=env)
